@@ -115,6 +115,8 @@ def _job_real(arg):
     try:
         calls, info = G.run_real(seed, boot_iterations=boot_iter, district=district)
     except Exception as e:  # noqa: BLE001
+        if type(e).__name__ == "ModelNotEnoughSubunitsException":
+            return {"skipped": str(e)[:200]}  # the minimum-units gate (C14), not an interval computation
         return {"exc": {"clause": "run_raised", "exc": type(e).__name__, "msg": str(e)[:300], "seed": seed, "district": district,
                         "tb": traceback.format_exc()[-1500:]}}
     out = []
@@ -246,6 +248,9 @@ def real_traces(run, n_runs, seed, boot_iter):
     results = common.pool().map(_job_real, jobs, chunksize=1)
     traces = []
     for job, r in zip(jobs, results):
+        if "skipped" in r:
+            run.cov["real_runs_stopped_by_minimum_units_gate"] = run.cov.get("real_runs_stopped_by_minimum_units_gate", 0) + 1
+            continue
         if "exc" in r:
             run.violation("run_raised", {"clause": "run_raised", "exc": r["exc"]["exc"], "direction": "trace"}, r["exc"])
             continue
@@ -376,13 +381,13 @@ def c15(tier, seed):
         ]
     else:
         jobs += [
-            dict(name="MC_GaussianFallback_thorough.cfg", cfg="MC_GaussianFallback_thorough.cfg", kind="mc", workers=12, timeout=3000, heap="12g"),
+            dict(name="MC_GaussianFallback_thorough.cfg", cfg="MC_GaussianFallback_thorough.cfg", kind="mc", workers=16, timeout=3000, heap="12g"),
             dict(name="MC_GaussianFallback_3lvl_thorough.cfg", cfg="MC_GaussianFallback_3lvl_thorough.cfg", kind="mc", workers=4, timeout=3000, heap="8g"),
             dict(name="MC_GaussianFallback_1x3.cfg", cfg="MC_GaussianFallback_1x3.cfg", kind="mc", workers=2, timeout=900),
             dict(name="export 2x2", cfg="MC_GaussianFallback_export.cfg", kind="export", workers=1, timeout=3000),
             dict(name="export 1x2x2", cfg="MC_GaussianFallback_export_3lvl.cfg", kind="export", workers=1, timeout=3000),
             dict(name="simulate 2x3", cfg="MC_GaussianFallback_sim.cfg", kind="export", workers=1, timeout=3000,
-                 simulate="num=4000", seed=seed % 100000, depth=60),
+                 simulate="num=3000", seed=seed % 100000, depth=60),
         ]
     scen = tlc_batch(run, jobs)
     # 2. spec -> code
@@ -395,7 +400,7 @@ def c15(tier, seed):
     else:
         replay(run, scens, seed, boot_fast, "all exported terminal states, boot_sigma num_iterations=200")
         run.cov["exhaustive"] = True
-        pick, _ = sample_stratified(scens, 2400, rnd)
+        pick, _ = sample_stratified(scens, 1200, rnd)
         replay(run, pick, seed + 1, None, "stratified sample, boot_sigma unmodified (10000 resamples)")
         sim = scen["simulate 2x3"]
         run.witness("simulated_scenarios", len(sim))
@@ -403,7 +408,7 @@ def c15(tier, seed):
     if not quick:
         selftest(run)
     # 3. code -> spec
-    real_traces(run, 21 if quick else 360, seed + 5, 300 if quick else None)
+    real_traces(run, 21 if quick else 240, seed + 5, 300 if quick else None)
     req = [
         "exported_scenarios",
         "group_served_by_own_calibration",
